@@ -18,6 +18,7 @@ RULE = ('marker statements: 1-3 tables over 3 integrations (+ default namespace)
         'positions {FROM, JOIN, WHERE-subquery, target-subquery, CASE-operand subquery, function-argument subquery, CTE, INSERT..SELECT, '
         'UPDATE..FROM, DELETE-subquery} x qualifier spellings {lower, UPPER, Capitalised} x catalog forms; non-trivial = query with >= 2 '
         'tables or a model; distinct by (statement, catalog form)')
+RULE += '; also: fully qualified columns, DELETE/UPDATE with qualified WHERE, select-from-model, the same model in two sub-queries, CTE named like a foreign table, ten catalog spellings, one planner planning a sequence (CTE-then-table sequences)'
 ASSUMPTIONS = ['marker names are unique, so an identifier part tb_NN / mdl_N identifies its table / model wherever it appears',
                'first name part matched case-insensitively against integrations and projects, otherwise the default namespace']
 BUDGET = {'quick': (8, 240), 'thorough': (16, 1800)}
